@@ -182,6 +182,11 @@ EXPORT errno_t _mbstowcs_s_chk(size_t *restrict retvalp, wchar_t *restrict dest,
     orig_dest = dest;
     errno = 0;
 
+    /* libc stores up to len elements: never more than dest holds. If the
+       string does not fit, dest is filled and the count equals dmax, which
+       is reported as ESNOSPC below */
+    if (dest && len > dmax)
+        len = dmax;
     *retvalp = mbstowcs(dest, src, len);
 
     if (likely(*retvalp < dmax)) {
